@@ -233,6 +233,15 @@ def other_forms(rep, rng, tier, v):
                         ref_s, ref_j, _ = reference_trajectory(H.full(), [c.full() for c in cs], psi0.full().ravel(), tl, sd)
                         for tag, Harg, st in (("liouvillian-ket", qutip.liouvillian(H), psi0), ("liouvillian-dm", qutip.liouvillian(H), qutip.ket2dm(psi0))):
                             compare(tag, qutip.mcsolve(Harg, st, tl, cs, ntraj=1, seeds=[sd], options=tight), 0, ref_s, ref_j, False)
+                        # the class interface with one Liouvillian object handed to several solvers (improved sampling off / on):
+                        # every solver unravels the same equation, whichever was built or run first
+                        Lobj = qutip.QobjEvo(qutip.liouvillian(H))
+                        sA = qutip.MCSolver(Lobj, cs, options=tight)
+                        sB = qutip.MCSolver(Lobj, cs, options=dict(tight, improved_sampling=False))
+                        sC = qutip.MCSolver(Lobj, cs, options=tight)
+                        compare("liouvillian-object:second-solver", sB.run(psi0, tl, ntraj=1, seeds=[sd]), 0, ref_s, ref_j, False)
+                        compare("liouvillian-object:third-solver", sC.run(psi0, tl, ntraj=1, seeds=[sd]), 0, ref_s, ref_j, False)
+                        compare("liouvillian-object:first-solver", sA.run(psi0, tl, ntraj=1, seeds=[sd]), 0, ref_s, ref_j, False)
                         Ld = qutip.liouvillian(H, [cdet])
                         rd_s, rd_j = reference_trajectory_dm(Ld.full(), [c.full() for c in cs], qutip.ket2dm(psi0).full(), tl, sd)
                         compare("deterministic-channel", qutip.mcsolve(Ld, psi0, tl, cs, ntraj=1, seeds=[sd], options=tight), 0, rd_s, rd_j, True)
@@ -661,6 +670,28 @@ def run(tier, seed, replay):
         dst = max(np.abs(x.full() - y.full()).max() for k in range(4) for x, y in zip(rc.runs_states[k], rcf.runs_states[k]))
         if dtr > 1e-8 or dst > 1e-8:
             v("nm-args:other-args-on-a-used-solver", f"nm_mcsolve: a run with amp={-0.5 * amp} on a solver that had run with amp={amp} differs from a fresh solver: trace weights by {dtr:.2e}, states by {dst:.2e}", {"amp": amp})
+    # ------------------------------------------------------------------ non-Markovian: the operator set the solver works with is complete
+    # (sum of L+ L proportional to the identity) also when the given operators have a non-diagonal sum, and every operator is as given
+    for trial in range(4 if tier == "quick" else 20):
+        dn = int(rng.choice([2, 3]))
+        given = [qutip.Qobj(rng.standard_normal((dn, dn)) + 1j * rng.standard_normal((dn, dn))) * 0.7 for _ in range(int(rng.integers(1, 3)))]
+        if trial == 0:
+            dn, given = 2, [qutip.sigmam() + 0.6 * qutip.sigmaz()]
+        try:
+            with warnings.catch_warnings():
+                warnings.simplefilter("ignore")
+                sn = qutip.NonMarkovianMCSolver(qutip.rand_herm(dn, seed=int(rng.integers(1 << 30))), [(g_, qutip.coefficient(lambda t: 0.3 - 0.5 * np.sin(t))) for g_ in given], options={"progress_bar": ""})
+            tot = sum((L.dag() * L for L in sn.ops)).full()
+        except Exception as e:
+            v("nm-completeness:raises", f"{type(e).__name__}: {e}"[:200])
+            continue
+        rep.evaluations += 1
+        rep.count("nm-completeness")
+        a_ = np.trace(tot) / dn
+        if np.abs(tot - a_ * np.eye(dn)).max() > 1e-8 * max(1.0, abs(a_)) or abs(np.imag(a_)) > 1e-10:
+            v("nm-completeness", f"NonMarkovianMCSolver: the sum of L+ L over the solver's operators is not proportional to the identity (deviation {np.abs(tot - a_ * np.eye(dn)).max():.2e}) for {len(given)} given operator(s) of dimension {dn}", {"ops": [str(g_.full().tolist()) for g_ in given]})
+        if any((a - b).norm() > 1e-12 for a, b in zip(sn.ops, given)):
+            v("nm-completeness:given-ops", "NonMarkovianMCSolver.ops does not start with the operators it was given")
     # ------------------------------------------------------------------ non-Markovian: the step interface returns state x trace weight,
     # whatever intermediate times were asked for, and agrees with run() for the same seed
     def rate_s(t):
